@@ -68,8 +68,9 @@ def _crashpoints(ctx, name, env, timeout=2400):
         fails.append("SIMFAIL prop=%s the implementation crashed: %s (panic) | crashpoint=%s" % (PROP, first[0] if first else "?", cur))
     elif r["rc"] != 0 and not fails:
         ctx.broken.append(("correspondence", name, "harness run failed (rc=%s): %s" % (r["rc"], out[-1500:])))
+    renv = {k: v for k, v in e.items() if k != "VERIF_OUT"}   # (the trace path is a temp name: keep replay files stable)
     for l in fails:
-        ctx.concrete.append(dict(property=PROP, what=l[:700], key=_classify(l), monitor=name, test="TestVerifSimTeardown", env=e))
+        ctx.concrete.append(dict(property=PROP, what=l[:700], key=_classify(l), monitor=name, test="TestVerifSimTeardown", env=renv))
     ctx.corr.append(dict(name=name + "-monitors", ok=not fails and r["rc"] == 0, records=0, failures=len(fails),
                          summary=summ[-1][:3000] if summ else "", wall_s=round(r["wall"], 2)))
     if not os.path.exists(trace) or crashed:
